@@ -28,7 +28,7 @@ def seg_unit(uid, fn, var, fold, skip_rw, bad_hint):
             ('R7', '@continue', ''),
             ('R3', r"decoded\.contains\('/'\)", "x_str_contains_char(&decoded, '/')", '*'),
             ('R3', r'\[(".*?"), (".*?")\]\.contains\(&&\*decoded\)', r'x_is_one_of2(&decoded, \1, \2)', '*'),
-            ('R4', r'write!\(rebuilt, "\{\}", decoded\)\.unwrap\(\);', 'x_write_display(&mut rebuilt, &decoded);', '*'),
+            ('R4', r'write!\(rebuilt, "\{\}", decoded\)\.unwrap\(\);', 'x_push_display(&mut rebuilt, &decoded);', '*'),
         ],
         loops={0: '''
         invariant
